@@ -257,7 +257,7 @@ class CodespeedReporter(Reporter):
             return response
 
     def _send_to_codespeed(self, results, run_id):
-        payload = urlencode({"json": json.dumps(results)})
+        payload = urlencode({"json": json.dumps(results)}).encode("utf-8")
 
         try:
             self._send_payload(payload)
